@@ -15,6 +15,36 @@ func baseWeights() map[string]int {
 	}
 }
 
+// defaults gives every engine profile a small weight for every operation kind it does not mention, a couple of open
+// queries and the event oracle: cross-feature interactions (Reset in a Shrink history, registration under lock, a dump
+// loaded later, observers next to batches ...) then occur in every property's check, not only where they were expected.
+var defaultWeights = map[string]int{
+	"new": 4, "newBatch": 2, "copy": 1, "add": 4, "remove": 3, "exchange": 2, "set": 1, "write": 1, "setRel": 2, "removeEntity": 3,
+	"addBatch": 1, "removeBatch": 1, "exchangeBatch": 1, "setRelBatch": 1, "removeEntities": 1,
+	"filterNew": 2, "filterReg": 1, "query": 2, "shrink": 1, "reset": 1, "stats": 1, "read": 1, "scenario": 1, "register": 1,
+	"batchCall": 1, "dump": 1, "loadSaved": 1, "obsNew": 2, "obsReg": 1, "emit": 1, "res": 1, "qOpen": 1, "qNext": 2, "qClose": 2,
+}
+
+func applyDefaults() {
+	for id, pd := range Props {
+		if id == "C20" || id == "C12" {
+			// traces are compared across processes/builds: keep these profiles as defined
+			pd.Opt.Events = true
+			continue
+		}
+		for k, v := range defaultWeights {
+			if _, ok := pd.Profile.W[k]; !ok {
+				pd.Profile.W[k] = v
+			}
+		}
+		if !pd.Profile.OpenQ {
+			pd.Profile.OpenQ = true
+			pd.Profile.MaxOpenQ = 2
+		}
+		pd.Opt.Events = true
+	}
+}
+
 func with(w map[string]int, kv ...any) map[string]int {
 	out := map[string]int{}
 	for k, v := range w {
@@ -288,4 +318,5 @@ func init() {
 			}
 		},
 	}
+	applyDefaults()
 }
